@@ -23,6 +23,28 @@ MODE = {'api': 'backend', 'backend': 'contract', 'recursive': True, 'post': 'con
 
 OPTS = ['parallel_iterations', 'swap_memory', 'maximum_iterations']
 
+# an input-only simple variable whose name sorts BEFORE a composite output of the same statement
+OUTPUT_ORDER = [
+    ('c3:input_only_before_composite', '''def f(x, n, b, xs):
+  stats = O()
+  hist = {'n': 5}
+  scale = 2
+  d = 1
+  if x > 1:
+    scale = scale * 2
+    stats.v = stats.v + scale
+  if b:
+    d = d + x
+    hist['n'] = hist['n'] + d
+  for i in range(n):
+    if i > x:
+      aa = stats.w
+      aa = aa + i
+      stats.w = aa
+  return (stats.v, stats.w, hist['n'])
+'''),
+]
+
 
 def directive_program(seed, idx):
   """Nested loops, some carrying set_loop_options directives with distinct values."""
@@ -99,6 +121,9 @@ def run(tier):
     progs = sk + rnd.sample(sk3, 150) + gen.random_programs(200, R.seed + 3)
     ndir = 100
   progs += [gen.Prog(n, s, {'extra'}, C01.EXTRA_GLOBS.get(n)) for n, s in C01.EXTRA]
+  progs += [gen.Prog(n, s, {'extra'}) for n, s in OUTPUT_ORDER]
+  from vf import exotic
+  progs += exotic.programs()
   dirs = [directive_program(R.seed, i) for i in range(ndir)]
   progs += dirs
 
